@@ -79,7 +79,28 @@ func (e *specEnv) eval(x SExpr) Val {
 		var bound []*Term
 		var guards []*Term
 		for _, v := range k.Vars {
-			t := e.c().evalType(v.Type, e.pkg())
+			var t types.Type
+			if strings.HasPrefix(v.Type, "keyof(") || strings.HasPrefix(v.Type, "elemof(") {
+				// binder typed after a map/slice-valued expression (generic contracts)
+				inner := v.Type[strings.Index(v.Type, "(")+1 : len(v.Type)-1]
+				ie, err := parseSExpr(inner)
+				if err != nil {
+					e.fail("bad binder type %q", v.Type)
+				}
+				iv := e.eval(ie)
+				switch u := iv.Typ.Underlying().(type) {
+				case *types.Map:
+					if strings.HasPrefix(v.Type, "keyof(") {
+						t = u.Key()
+					} else {
+						t = u.Elem()
+					}
+				case *types.Slice:
+					t = u.Elem()
+				}
+			} else {
+				t = e.c().evalType(v.Type, e.pkg())
+			}
 			if t == nil {
 				e.fail("unknown type %q in binder", v.Type)
 			}
@@ -94,6 +115,14 @@ func (e *specEnv) eval(x SExpr) Val {
 			return Val{T: Forall(bound, Implies(And(guards...), body)), Typ: types.Typ[types.Bool]}
 		}
 		return Val{T: Exists(bound, And(And(guards...), body)), Typ: types.Typ[types.Bool]}
+	case *SOr:
+		var ts []*Term
+		for _, x := range k.Es {
+			ts = append(ts, e.evalBool(x))
+		}
+		return Val{T: Or(ts...), Typ: types.Typ[types.Bool]}
+	case *SNot:
+		return Val{T: Not(e.evalBool(k.E)), Typ: types.Typ[types.Bool]}
 	case *SAnd:
 		var ts []*Term
 		for _, x := range k.Es {
@@ -186,6 +215,19 @@ func (e *specEnv) expr(x ast.Expr) Val {
 	case *ast.StarExpr:
 		p := e.expr(k.X)
 		return e.f.load(e.state(), p)
+	case *ast.TypeAssertExpr:
+		// x.(T): the value boxed in interface x, meaningful when is(x, T) holds
+		v := e.expr(k.X)
+		t := c.evalType(types.ExprString(k.Type), e.pkg())
+		if t == nil {
+			e.fail("unknown type in type assertion: %s", types.ExprString(k.Type))
+		}
+		if v.T == nil || v.T.Sort != c.ifaceSort() {
+			e.fail("type assertion on a non-interface value")
+		}
+		tn := typeName(t)
+		c.declFun("unbox$"+tn, []*Sort{c.ifaceSort()}, c.sortOf(t))
+		return Val{T: App("unbox$"+tn, c.sortOf(t), v.T), Typ: t}
 	}
 	e.fail("unsupported expression %T", x)
 	return Val{}
@@ -344,6 +386,11 @@ func (e *specEnv) binary(k *ast.BinaryExpr) Val {
 	case token.NEQ:
 		return Val{T: Not(Eq(at, bt)), Typ: boolT}
 	case token.LSS, token.LEQ, token.GTR, token.GEQ:
+		if a.Typ != nil {
+			if bs, ok := a.Typ.Underlying().(*types.Basic); ok && bs.Info()&types.IsString != 0 {
+				return Val{T: c.strCmp(k.Op, at, bt), Typ: boolT}
+			}
+		}
 		signed := true
 		if _, s, ok := intInfo(a.Typ); ok {
 			signed = s
@@ -616,6 +663,63 @@ func (e *specEnv) callExpr(k *ast.CallExpr) Val {
 				return Val{T: Forall([]*Term{bv}, Implies(rng, body)), Typ: boolT}
 			}
 			return Val{T: Exists([]*Term{bv}, And(rng, body)), Typ: boolT}
+		case "old_objects_unchanged":
+			// old_objects_unchanged(x): every map (slice backing store / struct of
+			// x's type) that existed at entry still has its entry contents; only
+			// objects allocated by this call may differ
+			v := e.expr(k.Args[0])
+			top := c.allocTop(e.old)
+			r := Var("r!q", IntSort)
+			lt := mk("<", BoolSort, r, top)
+			switch u := v.Typ.Underlying().(type) {
+			case *types.Map:
+				_, _, _, d1, v1, l1 := c.mapHeaps(e.st, u)
+				_, _, _, d0, v0, l0 := c.mapHeaps(e.old, u)
+				return Val{T: Forall([]*Term{r}, Implies(lt, And(Eq(Select(d1, r), Select(d0, r)), Eq(Select(v1, r), Select(v0, r)), Eq(Select(l1, r), Select(l0, r))))), Typ: boolT}
+			case *types.Slice:
+				_, h1 := c.elemHeap(e.st, u.Elem())
+				_, h0 := c.elemHeap(e.old, u.Elem())
+				return Val{T: Forall([]*Term{r}, Implies(lt, Eq(Select(h1, r), Select(h0, r)))), Typ: boolT}
+			case *types.Pointer:
+				if stt, ok := u.Elem().Underlying().(*types.Struct); ok {
+					var cs []*Term
+					for i := 0; i < stt.NumFields(); i++ {
+						_, h1 := c.fieldHeap(e.st, u.Elem(), stt, i)
+						_, h0 := c.fieldHeap(e.old, u.Elem(), stt, i)
+						cs = append(cs, Eq(Select(h1, r), Select(h0, r)))
+					}
+					return Val{T: Forall([]*Term{r}, Implies(lt, And(cs...))), Typ: boolT}
+				}
+			}
+			e.fail("old_objects_unchanged() needs a map, slice or pointer to struct")
+		case "only_changes":
+			// only_changes(m): among all maps (slices) of m's type, only m's own
+			// contents differ from the old state -- the frame of a library call
+			v := e.expr(k.Args[0])
+			switch u := v.Typ.Underlying().(type) {
+			case *types.Map:
+				_, _, _, d1, v1, l1 := c.mapHeaps(e.st, u)
+				_, _, _, d0, v0, l0 := c.mapHeaps(e.old, u)
+				r := Var("r!q", IntSort)
+				return Val{T: Forall([]*Term{r}, Implies(Not(Eq(r, v.T)), And(Eq(Select(d1, r), Select(d0, r)), Eq(Select(v1, r), Select(v0, r)), Eq(Select(l1, r), Select(l0, r))))), Typ: boolT}
+			case *types.Slice:
+				_, h1 := c.elemHeap(e.st, u.Elem())
+				_, h0 := c.elemHeap(e.old, u.Elem())
+				r := Var("r!q", IntSort)
+				return Val{T: Forall([]*Term{r}, Implies(Not(Eq(r, c.slBase(v.T))), Eq(Select(h1, r), Select(h0, r)))), Typ: boolT}
+			}
+			e.fail("only_changes() needs a map or a slice")
+		case "is":
+			// is(x, T): interface value x is non-nil and holds a value of dynamic type T
+			v := e.expr(k.Args[0])
+			t := c.evalType(types.ExprString(k.Args[1]), e.pkg())
+			if t == nil {
+				e.fail("unknown type in is(): %s", types.ExprString(k.Args[1]))
+			}
+			if v.T == nil || v.T.Sort != c.ifaceSort() {
+				e.fail("is() on a non-interface value")
+			}
+			return Val{T: And(Not(Eq(v.T, Var("iface_nil", c.ifaceSort()))), Eq(App("iface_type", IntSort, v.T), c.typeID(t))), Typ: boolT}
 		case "w128":
 			// w128(x): x widened to a 128-bit integer (bv mode) / itself (int mode)
 			v := e.fit(e.expr(k.Args[0]), types.Typ[types.Int64])
